@@ -592,9 +592,9 @@ class Model:
             utgt = tgt
             if form in (1, 2, 3):
                 # ECMA-167 path components cannot express empty interior/trailing components
-                utgt = self.TARGETS[op.get('tgt', 0) % 8] if ('//' in tgt or tgt.endswith('/') and tgt != '/' or len(max(tgt.split('/'), key=len)) > 254) else tgt
-                if utgt.endswith('/') and utgt != '/':
-                    utgt = utgt.rstrip('/')
+                # ECMA-167 path components cannot express empty interior/trailing components: targets are compared modulo
+                # doubled and trailing slashes (udf_norm); components of more than 254 bytes cannot be represented at all
+                utgt = self.TARGETS[op.get('tgt', 0) % 8] if len(max(tgt.split('/'), key=lambda c: len(c.encode('utf-8')))) > 254 or any(len(c) > 127 and any(ord(ch) > 255 for ch in c) for c in tgt.split('/')) else tgt
             paths['udf'] = join(parents['udf'], nm['udf'])
             kw['udf_symlink_path'] = paths['udf']
             kw['udf_target'] = utgt
@@ -1668,6 +1668,14 @@ class BadCatalogue:
         if self.m.rr:
             return 'set_hidden', {'iso_path': f, 'rr_path': '/x'}
         raise Skip('single path kind')
+
+
+def udf_norm(t):
+    """A symlink target as ECMA-167 path components can carry it: doubled and trailing slashes are not representable."""
+    if t is None:
+        return t
+    lead = '/' if t.startswith('/') else ''
+    return lead + '/'.join(c for c in t.split('/') if c != '')
 
 
 def _op_bad(self, op):
